@@ -24,7 +24,18 @@ CFG = {
             "rewind buffer 0, buffer 1 at cursor w}; (D) per random case one sequence of 2-4 steps of a random parser on 1-3 random "
             "buffers in random chains of 0-2 views, each step at the buffer's cursor or a random one; every step is judged against "
             "the spec window at its cursor (a wrong later step after a right first one is judged `bad reuse`); "
-            "non-trivial = multi-byte parser with >=2 bytes of buffer or a non-zero cursor; a sequence of >=2 uses of a parser other than UInt8P",
+            "REMAINING-LENGTH sweep on pattern buffers (buffer word `#N` = N bytes, byte i = 7i+3+i/256 mod 256, so a window read at a "
+            "wrong offset shows in the value): every parser (u8,i8, the six wider ones x {be,le}, ByteVecP of 0,1,2,8,255,256,257,65535,"
+            "65536 bytes as far as len <= remaining+2) x remaining length = every value 0..600 (quick: the bands k*256+-8 and every 7th "
+            "value outside them) and k*256-8..k*256+8 for k=3,4,16,255,256 (2^16),257 (2^16+2^8) x {plain buffer at cursor 0 and 3, "
+            "window of a RestrictView with 300 / 1 bytes behind it, window of two nested views with 1+255 bytes behind it} (remaining = "
+            "the WINDOW's; quick: 2 of the 5 positions beyond 600); LARGE CURSOR with short remaining: cursor k*256-8..k*256+8 for "
+            "k=1,2,3,4,16,255,256,257 (quick: offsets 0,+-1,+-2,+-4,+-8; 0,+-1 from k=255 on) x remaining 0,w-1,w,w+1 (thorough also 1,w+8) x "
+            "every fixed-width parser and ByteVecP 0,1,2,8, plain and inside windows; 2^24: 26 cases on 16 MiB buffers in thorough "
+            "(remaining 2^24-1,2^24,2^24+1,2^24+7 x u16,i32,u64,bv 65536; two inside a window; cursor 2^24,2^24+1 with w-1,w bytes left), "
+            "one in quick; per random case one more sweep case (remaining k*256-8..k*256+8 for k=0..8, every 32nd k in 16,255,256,257; "
+            "cursor < 700; random parser; plain or a window with 0..399 bytes behind it); "
+            "non-trivial = parser other than UInt8P with >=2 bytes of buffer or a non-zero cursor; a sequence of >=2 uses of a parser other than UInt8P",
     "trusted_base": COMMON_TB + [
         "modelled, not verified: ParseBuffer::peek/incr_cursor_unsafe/set_cursor_unsafe/extract as list indexing on a whole buffer (views: C17)"],
     "assumptions": ["the model is over a plain byte list; that a restricted view behaves like a copy of its window is C17's theorem; the correspondence run exercises every parser both on plain buffers and on restricted views inside a larger allocation (case kinds prefixed with v, or a fifth word @lead.trail/... for a chain of nested views)",
